@@ -223,6 +223,17 @@ pub fn check_case(c: &Case, env: &Env) -> CheckResult {
     if let Some(h) = &c.huge {
         return check_huge(h);
     }
+    // zero-extended sources may legitimately be read far beyond their data by long copies
+    let asked: u64 = c
+        .steps
+        .iter()
+        .map(|st| match st {
+            Step::CopyTo(n) | Step::CopyFrom(n) => *n,
+            Step::R(op) => rops_bits(std::slice::from_ref(op)),
+            Step::W(_) => 0,
+        })
+        .sum();
+    let _allow = FuseAllowance::for_bits(asked);
     let e = c.rcfg.e;
     let rw = c.rcfg.r.word().bits();
     let wb = c.wcfg.w.bits();
